@@ -68,7 +68,8 @@ def pairs():
         dict(name="CAPA+MVCAPA/L2Cost(0)", tunes="none", shareable=True, scorer=lambda: L2Cost(param=0.0), cuts=[[0, 3], [4, 9]],
              d1=(CAPA, "collective_saving", dict(min_segment_length=2, max_segment_length=6, collective_penalty_scale=0.3, point_penalty_scale=0.3),
                  dict(min_segment_length=3, max_segment_length=20, collective_penalty_scale=1.0, point_penalty_scale=1.0)),
-             d2=(MVCAPA, "collective_saving", dict(min_segment_length=2, max_segment_length=6, collective_penalty_scale=0.3, point_penalty_scale=0.3),
+             d2=(MVCAPA, "collective_saving", dict(min_segment_length=2, max_segment_length=6, collective_penalty="combined", collective_penalty_scale=0.3,
+                                                   point_penalty_scale=0.3),
                  dict(min_segment_length=2, max_segment_length=4, collective_penalty="sparse", collective_penalty_scale=0.5, point_penalty_scale=0.5))),
         dict(name="tuned MovingWindow+tuned Seeded/CUSUM", tunes="both", shareable=True, scorer=lambda: CUSUM(), cuts=[[0, 2, 5], [3, 6, 9]],
              d1=(MovingWindow, "change_score", dict(bandwidth=2, threshold_scale=None, level=0.3), dict(bandwidth=3, threshold_scale=None, level=0.1)),
@@ -104,6 +105,15 @@ def pairs():
              d1=("anomaliser", "cost", dict(stat_lower=-1.0, stat_upper=1.0), dict(stat_lower=-3.0, stat_upper=2.0)),
              d2=(PELT, "cost", dict(min_segment_length=1, penalty_scale=0.3), dict(min_segment_length=1, penalty_scale=0.3))),
     ]
+
+
+def _check_pairs():
+    """set_params(p) only sets the keys of p: the model's "configuration = p" needs both sets to have the same keys
+    (a history set_params(p2), set_params(p1) would otherwise leave a p2 value behind -- a false alarm of this harness
+    found by a simulated history of length 6 under seed 3)."""
+    for pr in pairs():
+        for d in ("d1", "d2"):
+            assert set(pr[d][2]) == set(pr[d][3]), (pr["name"], d)
 
 
 def build(spec, params, scorer, wrapped=None):
@@ -400,6 +410,7 @@ def update_merge_stage(chk, tier, wd):
 
 
 def run(tier: str) -> int:
+    _check_pairs()
     chk = Check(PROP, tier)
     chk.rule = ("stage A: all histories up to MaxLen over an alphabet of ~70 calls (2 detectors x {set_params x2, clone, deepcopy, fit_predict/fit_transform/update_predict x4 datasets, "
                 "fit/update x4 datasets, predict/transform/transform_scores x4 datasets} + scorer fit/evaluate), shared or "
